@@ -22,6 +22,17 @@ func init() {
 
 func runC11(r *Run) {
 	defer importProcessLocal(r, "RM", "x/liquidvesting")
+	defer func() {
+		r.Rule("R7", "ERR.failed-steps-fail-the-message: Liquidate and Redeem burn, escrow and re-schedule in several steps and rely on the transaction failing as a whole when one step fails; a non-nil error of any keeper or Haqq call in them (bank moves, ApplyVestingSchedule, denom updates, ERC20 conversion) reaches only failure exits — never logged, matched against a sentinel and tolerated")
+		var fns []*ssa.Function
+		for _, n := range []string{"Liquidate", "Redeem"} {
+			if f, ok := r.P.FnOK("(x/liquidvesting/keeper.Keeper)." + n); ok {
+				fns = append(fns, f)
+			}
+		}
+		n := checkErrorsFailTheMessage(r, "R7", fns, "the liquid tokens are already burnt / the coins already moved at that point, so the redeemed amount leaves the module without its lock-up schedule (or a liquidation mints without escrow)")
+		r.Floor("R7", "error-returning keeper calls in Liquidate/Redeem", n, 12)
+	}()
 	P := r.P
 	const lk = "x/liquidvesting/keeper"
 	modName, _ := P.constOf(haqqMod+"/x/liquidvesting/types", "ModuleName")
